@@ -481,7 +481,7 @@ impl Check for C01Check {
     fn components(&self) -> Value {
         json!({"real": ["every TryFrom<&[u8]> decoder of alpha_g_detector", "TryFrom<Vec<Chunk>>", "chronobox_fifo", "all *BankName / BoardId TryFrom<&str>", "id conversions", "accessors and Display impls"],
                "model": ["firmware encoders (ADC v3, MCP chunk + CRC-32C, PWB v2, TRG v3, Chronobox)", "datagram fault injector"],
-               "simulated": [], "stub": [], "build_modes": ["release (overflow checks off)", "relchk (overflow checks + debug assertions on)"]})
+               "simulated": ["allocator limit: the processes run under a 4 GiB address-space limit, so a wild allocation fails (abort) instead of being over-committed"], "stub": [], "build_modes": ["release (overflow checks off)", "relchk (overflow checks + debug assertions on)"]})
     }
     fn count(&self, tier: Tier) -> u64 {
         2 * match tier {
